@@ -177,6 +177,11 @@ impl AsyncFileSystem for AsyncMemoryFS {
     ) -> VfsResult<Box<dyn Unpin + Stream<Item = String> + Send>> {
         let prefix = format!("{}/", path);
         let handle = self.handle.read().await;
+        if let Some(file) = handle.files.get(path) {
+            if file.file_type != VfsFileType::Directory {
+                return Err(VfsErrorKind::Other("Not a directory".into()).into());
+            }
+        }
         let mut found_directory = false;
         #[allow(clippy::needless_collect)] // need collect to satisfy lifetime requirements
         let entries: Vec<String> = handle
